@@ -9,7 +9,7 @@ import sys
 root = "/verif/seeded"
 only = sys.argv[1:]
 missed = []
-for name in sorted(os.listdir(root)):
+for name in sorted(n for n in os.listdir(root) if not n.startswith("_")):
     if only and not any(name.startswith(p) for p in only):
         continue
     d = os.path.join(root, name)
